@@ -25,6 +25,7 @@ import onnx_ir as ir
 import onnx_ir.passes.common as ir_passes_common
 
 import onnxscript.utils.utils as utils
+from onnxscript._internal import _verif
 from onnxscript._internal.tape_builder import BuilderBase, TapeBuilder
 
 OptimizerContext = BuilderBase
@@ -618,8 +619,23 @@ def if_op(node: ir.Node, op, state: OptimizerState) -> ReturnValue:
 
         # Move initializers from the subgraph to the main graph to avoid losing them.
         main_graph = node.graph
+        if _verif.ENABLED:
+            branch_initializers = list(graph.initializers.values())
         if main_graph is not None:
             _move_initializers_to_graph(graph, main_graph)
+        if _verif.ENABLED:
+            _verif.emit(
+                "folder",
+                "InlineIf",
+                node=_verif.tok(node, "n"),
+                branch=_verif.tok(graph, "g"),
+                condition=_verif.tok(cond_input, "v"),
+                moved=[_verif.tok(n, "n") for n in graph_nodes],
+                outputs=[_verif.tok(v, "v") for v in formal_outs],
+                moved_inits=[_verif.tok(v, "v") for v in branch_initializers],
+                moved_init_names=[str(v.name) for v in branch_initializers],
+                to_graph=_verif.tok(main_graph, "g"),
+            )
 
         return Replacement(formal_outs, graph_nodes)
     return None
@@ -1198,6 +1214,15 @@ class FoldConstantsPass(ir.passes.InPlacePass):
                 )
                 node.replace_input_with(i, sym_value)
                 self._modified = True
+                if _verif.ENABLED:
+                    _verif.emit(
+                        "folder",
+                        "SubstInput",
+                        node=_verif.tok(node, "n"),
+                        index=i,
+                        old=_verif.tok(value, "v"),
+                        new=_verif.tok(sym_value, "v"),
+                    )
                 # TODO(rama): consider merging type/other info from both values
 
         # Propagate const_value, and manually find out shape and type
@@ -1346,6 +1371,8 @@ class FoldConstantsPass(ir.passes.InPlacePass):
                 replacement = self.new_constant(node, outputs)
                 if replacement is None:
                     return None
+                if _verif.ENABLED:
+                    _verif.emit("folder", "Fold", node=_verif.tok(node, "n"), as_constant_node=True)
                 return Replacement(replacement.outputs, [replacement])
             new_initializer_value = self.new_initializer(node, outputs)
             if new_initializer_value is None:
@@ -1353,6 +1380,8 @@ class FoldConstantsPass(ir.passes.InPlacePass):
             # Add the new initializer to the graph
             assert node.graph is not None
             node.graph.register_initializer(new_initializer_value)
+            if _verif.ENABLED:
+                _verif.emit("folder", "Fold", node=_verif.tok(node, "n"), as_constant_node=False)
             return Replacement([new_initializer_value], [])
         else:
             logger.warning(
@@ -1376,6 +1405,27 @@ class FoldConstantsPass(ir.passes.InPlacePass):
             root, node, [node], replacement.new_nodes, node.outputs, replacement.new_outputs
         )
 
+        if _verif.ENABLED:
+            _verif.emit(
+                "folder",
+                "Replace",
+                container=_verif.tok(root, "g"),
+                node=_verif.tok(node, "n"),
+                inserted=[
+                    {
+                        "id": _verif.tok(n, "n"),
+                        "op": n.op_type,
+                        "domain": n.domain,
+                        "ins": [_verif.tok(v, "v") for v in n.inputs],
+                        "outs": [_verif.tok(v, "v") for v in n.outputs],
+                    }
+                    for n in replacement.new_nodes
+                ],
+                old_outs=[_verif.tok(v, "v") for v in node.outputs],
+                new_outs=[_verif.tok(v, "v") for v in replacement.new_outputs],
+                new_inits=[_verif.tok(v, "v") for v in replacement.new_outputs if v.is_initializer()],
+                new_init_names=[str(v.name) for v in replacement.new_outputs if v.is_initializer()],
+            )
         if isinstance(root, ir.Graph):
             # The old node should now be detached from the graph
             assert node.graph is None
@@ -1425,6 +1475,15 @@ class FoldConstantsPass(ir.passes.InPlacePass):
             sym_value.name = output.name
             graph.outputs[i] = sym_value
             self._modified = True
+            if _verif.ENABLED:
+                _verif.emit(
+                    "folder",
+                    "ReplaceOutput",
+                    graph=_verif.tok(graph, "g"),
+                    index=i,
+                    old=_verif.tok(output, "v"),
+                    new=_verif.tok(sym_value, "v"),
+                )
 
     def visit_function(self, function: ir.Function) -> None:
         for node in function:
@@ -1433,6 +1492,8 @@ class FoldConstantsPass(ir.passes.InPlacePass):
     def call(self, model: ir.Model) -> FoldConstantsResult:
         self._reset()
         self._opset_imports = model.opset_imports
+        if _verif.ENABLED:
+            _verif.begin("folder", model=_verif.snapshot_model(model))
         self.visit_graph(model.graph)
         for function in model.functions.values():
             # TODO(rama): Should we specialize functions?
@@ -1442,6 +1503,8 @@ class FoldConstantsPass(ir.passes.InPlacePass):
             # values when nodes are inserted via replace_nodes_and_values.
             # NameFixPass ensures all value names are unique before returning.
             ir_passes_common.NameFixPass()(model)
+        if _verif.ENABLED:
+            _verif.end("folder", modified=bool(self._modified), model=_verif.snapshot_model(model))
         return FoldConstantsResult(model, self._modified, self._state.symbolic_value_map)
 
 
@@ -1473,6 +1536,14 @@ def _clear_unused_initializers(values: Sequence[ir.Value]) -> None:
             assert value.is_initializer()
             assert value.graph is not None
             assert value.name is not None
+            if _verif.ENABLED:
+                _verif.emit(
+                    "folder",
+                    "Cleared",
+                    value=_verif.tok(value, "v"),
+                    graph=_verif.tok(value.graph, "g"),
+                    is_graph_input=bool(value.is_graph_input()),
+                )
             value.graph.initializers.pop(value.name)
 
 
